@@ -881,6 +881,7 @@ impl<'tcx> Cx<'tcx> {
                         iv.push(("trait_key", J::Str(self.key(tr.def_id))));
                         iv.push(("trait_ref", J::Str(with_no_trimmed_paths!(format!("{}", tr)))));
                         iv.push(("trait_args", self.args(tr.args)));
+                        iv.push(("unsafe", J::Bool(tcx.impl_trait_header(did).safety.is_unsafe())));
                     }
                     let items = tcx
                         .associated_items(did)
@@ -903,6 +904,7 @@ impl<'tcx> Cx<'tcx> {
                         ("path", J::Str(self.path(did))),
                         ("mut", J::Bool(mutability.is_mut())),
                         ("thread_local", J::Bool(tcx.is_thread_local_static(did))),
+                        ("freeze", J::Bool(t.is_freeze(tcx, ty::TypingEnv::post_analysis(tcx, did)))),
                         ("ty", self.ty(t)),
                         ("span", self.span(tcx.def_span(did))),
                     ]));
